@@ -185,6 +185,44 @@ var clusterGen atomic.Int64
 // HoldPorts re-binds the addresses of a dead node with listeners that close
 // every connection at once, so that no other process picks the freed ports up
 // and answers in the dead node's place.
+// FreezeGossipPort makes a killed node look frozen rather than dead to its peers:
+// its gossip TCP port accepts connections and then says nothing (a stopped or
+// wedged process, a one-way partition); its UDP port swallows packets.
+func (cl *TCluster) FreezeGossipPort(n *TNode) {
+	for attempt := 0; attempt < 40; attempt++ {
+		ln, err := net.Listen("tcp", n.GossipAddr())
+		if err != nil {
+			time.Sleep(5 * time.Millisecond)
+			continue
+		}
+		cl.holders = append(cl.holders, ln)
+		go func() {
+			var held []net.Conn
+			defer func() {
+				for _, c := range held {
+					c.Close()
+				}
+			}()
+			for {
+				c, err := ln.Accept()
+				if err != nil {
+					return
+				}
+				held = append(held, c) // never read, never answered
+			}
+		}()
+		break
+	}
+	if pc, err := net.ListenPacket("udp", n.GossipAddr()); err == nil {
+		cl.holders = append(cl.holders, packetCloser{pc})
+	}
+}
+
+type packetCloser struct{ net.PacketConn }
+
+func (p packetCloser) Accept() (net.Conn, error) { return nil, net.ErrClosed }
+func (p packetCloser) Addr() net.Addr            { return p.PacketConn.LocalAddr() }
+
 func (cl *TCluster) HoldPorts(n *TNode) {
 	for _, addr := range []string{n.ProxyAddr(), n.UpstreamAddr(), n.AdminAddr()} {
 		for attempt := 0; attempt < 20; attempt++ {
